@@ -1039,6 +1039,12 @@ func (ex *Exec) frameCheck(rec *recorder, pos token.Pos) {
 	if everything {
 		return
 	}
+	if c.LocalCalls {
+		// a function that calls through function values implicitly changes the call logs
+		for _, g := range []string{"fnCalls", "fnCallsT", "fnCalledN"} {
+			allowedAll[heapKey("G$", g)] = true
+		}
+	}
 	keys := make([]string, 0, len(rec.heap))
 	for k := range rec.heap {
 		keys = append(keys, k)
